@@ -123,6 +123,19 @@ func CheckC02(c *Ctx) {
 			c.Distinct.Add(HashBytes(vi, list[i]))
 		})
 	}
+	// corners of the packed representation (highest / lowest code in every field) and everything one or two metrics away
+	for vi, api := range probe.APIs {
+		api, vi := api, vi
+		list := cornerAssigns(api)
+		c.Extra["packed_corners_v"+api.Ver.Name] = cornerNote[api.Ver.ID]
+		c.Parallel("packed-corners-"+api.Ver.Name, len(list), 64, func(w *Worker, i int) {
+			for st := 0; st < NStyles; st++ {
+				objCase(w, api, list[i], st)
+			}
+			c.Distinct.Add(HashBytes(vi, list[i]) ^ 0x5555)
+			w.Count("packed-corner-objects")
+		})
+	}
 	// COMPLETE: every assignment with at most 4 (thorough: 5) optional metrics defined x all their values
 	for vi, api := range probe.APIs {
 		api, vi := api, vi
@@ -1226,6 +1239,13 @@ func CheckC16(c *Ctx) {
 		}
 		c.Distinct.Add(HashBytes(40, a))
 	})
+	{
+		list := cornerAssigns(api)
+		c.Parallel("packed-corners", len(list), 64, func(w *Worker, i int) {
+			check(w, list[i], i%NStyles, "packed-corner")
+			c.Distinct.Add(HashBytes(44, list[i]))
+		})
+	}
 	// none, all
 	c.Parallel("none-all", 6, 1, func(w *Worker, i int) {
 		a := baseBG(w.R, i%3)
